@@ -39,8 +39,8 @@ def extra(r, exe, thorough):
 
 
 def run(tier, seed):
-    r, obs = _hist.run_hist("C02", tier, seed, "c02", 40000, 16 * 40000, RULE, ASSUME, extra_runs=extra)
-    return r.finish({"scenario": "hist", "mon": "c02", "n": 40000 if tier == "quick" else 16 * 40000, "batch": 1})
+    r, obs = _hist.run_hist("C02", tier, seed, "c02", 40000, 16 * 150000, RULE, ASSUME, extra_runs=extra)
+    return r.finish({"scenario": "hist", "mon": "c02", "n": 40000 if tier == "quick" else 16 * 150000, "batch": 1})
 
 
 def replay(path):
